@@ -405,7 +405,7 @@ def check_learners(pomdp, ps, ga, bpi, r, item, k3, tier):
                 try:
                     res = bpi.FSCBoundedPolicyIteration(controller_state_count=size, iterations=iters, seed=(init[1] if init[0] == 'seed' else 1)).train_on(pomdp)
                 except AssertionError as e:
-                    r.violation('bpi_internal_assertion', dict(ctx, error=repr(e)[:200]), item, finding='K3' if k3 else None)
+                    r.violation('bpi_internal_assertion', dict(ctx, error=repr(e)[:200]), item)      # never fires on the pinned tree: not attributed to K3
                     continue
                 except Exception as e:
                     r.violation('bpi_exception', dict(ctx, error=repr(e)[:300]), item)
